@@ -48,7 +48,7 @@ def run(c):
               "alternatives), 15 regexps with assertions (^ $ \\A \\z \\b \\B (?m); every core text alone, behind / in front of other text, in a block "
               "comment, on a line of its own, twice), 16 regexps with loose ends (greedy / lazy .* .+ \\s*, (?s) (?U) (?i), first-written alternative; "
               "with and without groups), seeded random rules at random load positions, three rules files; comments: line and block, after code and "
-              "after multi-byte strings, adjacent, multi-line, empty, at EOF, with CRLF inside block comments; eight target files in one FileSet run "
+              "after multi-byte strings, adjacent, multi-line, empty, at EOF, with CRLF inside block comments; ten target files in one FileSet (versions of one path, a file not on disk, //line directives, a byte order mark, CRLF line endings) run "
               "as a history of one RunnerState: four versions of one path (longer; rewritten with the same byte length and modification time; the "
               "first bytes again) adjacent in one pass and interleaved with other paths in the other, a file that is not on disk, a file whose "
               "//line directives name an existing file; TruncateLen 0 and 15; non-trivial = a report was "
